@@ -39,8 +39,8 @@ Qed.
 Print Assumptions C03_accepted_only_documented_error.
 
 (* the hypotheses cannot be dropped (witnesses evaluated by the kernel) *)
-Theorem C03_accepted_wf_needs_depth : exists fs p, elab fs = Ok p /\ depth_ok (pk_env p) = false.
-Proof. exact elab_depth_refuted. Qed.
+Theorem C03_accepted_wf_needs_depth : exists fs p, elab fs = Ok p /\ Witness.hyps p = [false; true; true; true; true; true] /\ wf_pkg p = false.
+Proof. exact depth_ok_needed. Qed.
 Theorem C03_accepted_wf_needs_each : 
   (exists fs p, elab fs = Ok p /\ Witness.hyps p = [true; false; true; true; true; true] /\ wf_pkg p = false) /\
   (exists fs p, elab fs = Ok p /\ Witness.hyps p = [true; true; false; true; true; true] /\ wf_pkg p = false) /\
